@@ -17,6 +17,7 @@ import (
 
 	"github.com/dadrus/heimdall/internal/verifsim/bubble"
 	"github.com/dadrus/heimdall/internal/verifsim/simcore"
+	"github.com/dadrus/heimdall/internal/verifsim/simkeys"
 )
 
 // C10: nothing is reused from a cache beyond its validity.
@@ -544,19 +545,19 @@ func c10JWKSScenario(r *simcore.Run) {
 	}
 	defer os.RemoveAll(dir)
 	epoch := time.Now()
-	caKey := fixtureKey("ec256b")
-	ca, caDER := mintCA(caKey, epoch.Add(48*time.Hour))
-	os.WriteFile(filepath.Join(dir, "ca.pem"), pemCert(caDER), 0o600)
-	key := fixtureKey(keyName)
-	jwk := jose.JSONWebKey{Key: key.Public(), KeyID: "k1", Algorithm: string(algFor(key)), Use: "sig"}
+	caKey := simkeys.FixtureKey("ec256b")
+	ca, caDER := simkeys.MintCA(caKey, epoch.Add(48*time.Hour))
+	os.WriteFile(filepath.Join(dir, "ca.pem"), simkeys.PEMCert(caDER), 0o600)
+	key := simkeys.FixtureKey(keyName)
+	jwk := jose.JSONWebKey{Key: key.Public(), KeyID: "k1", Algorithm: string(simkeys.AlgFor(key)), Use: "sig"}
 	if withCert {
 		if withChain {
-			imKey := fixtureKey("ec384")
-			im, _ := mintIntermediate(ca, caKey, imKey, epoch.Add(40*time.Hour), 3)
-			leaf, _ := mintLeaf(im, imKey, key, epoch.Add(secs(notAfterS)), 2)
+			imKey := simkeys.FixtureKey("ec384")
+			im, _ := simkeys.MintIntermediate(ca, caKey, imKey, epoch.Add(40*time.Hour), 3)
+			leaf, _ := simkeys.MintLeaf(im, imKey, key, epoch.Add(secs(notAfterS)), 2)
 			jwk.Certificates = []*x509.Certificate{leaf, im}
 		} else {
-			leaf, _ := mintLeaf(ca, caKey, key, epoch.Add(secs(notAfterS)), 2)
+			leaf, _ := simkeys.MintLeaf(ca, caKey, key, epoch.Add(secs(notAfterS)), 2)
 			jwk.Certificates = []*x509.Certificate{leaf}
 		}
 	}
@@ -588,7 +589,7 @@ mechanisms:
 	}
 	defer e.Close()
 	e.epoch = epoch
-	body := jwksJSON(jwk)
+	body := simkeys.JWKSJSON(jwk)
 	e.net.HandleFunc("idp", func(w http.ResponseWriter, req *http.Request) {
 		w.Header().Set("Content-Type", "application/json")
 		w.Write(body)
@@ -609,7 +610,7 @@ mechanisms:
 		bubble.At(e.epoch, at)
 		now := time.Now()
 		// a token that is itself valid at the time of each request: only the key's lifetime is under test
-		tok := signJWT(key, "k1", map[string]any{"iss": "iss1", "sub": "alice", "iat": now.Unix() - 1, "exp": now.Unix() + 3600})
+		tok := simkeys.SignJWT(key, "k1", map[string]any{"iss": "iss1", "sub": "alice", "iat": now.Unix() - 1, "exp": now.Unix() + 3600})
 		res := e.do("GET", "http://heimdall.local/res/1", map[string]string{"Authorization": "Bearer " + tok})
 		r.Logf("req %v", res)
 		contacted := res.calls["idp"] > 0
@@ -676,7 +677,7 @@ mechanisms:
           key_store:
             path: %s
         ttl: %ds
-`, fixturePath(keyName), protoTTL)
+`, simkeys.FixturePath(keyName), protoTTL)
 	rules := fmt.Sprintf(c10Rules, "    - authenticator: anon\n    - finalizer: jwt"+stepCfg)
 	r.Logf("scenario=%s cache=%s ttl=%ds (catalogue %ds) key=%s", kind, cacheKind, ttlS, protoTTL, keyName)
 	e, err := newEnv(r, cacheKind, mech, rules)
@@ -698,7 +699,7 @@ mechanisms:
 			break
 		}
 		tok := strings.TrimPrefix(res.header.Get("Authorization"), "Bearer ")
-		pl, err := jwtPayload(tok)
+		pl, err := simkeys.JWTPayload(tok)
 		if err != nil {
 			r.Fail("infra", "jwt-finalizer-token", "cannot decode handed out token %q: %v", tok, err)
 			break
